@@ -365,7 +365,12 @@ def run_case(case, rec, mon=None):
                 for j in range(case["n_comps"]):
                     parts = gen.composition(rng, int(N))
                     try:
-                        stream(comp, x, parts, reuse=(j % 3 == 1))
+                        if j % 3 == 2:
+                            with monitor.strict_settings():
+                                stream(comp, x, parts)
+                            rec.count("streams_under_strict_process_settings")
+                        else:
+                            stream(comp, x, parts, reuse=(j % 3 == 1))
                         if j % 3 == 1:
                             rec.count("streams_through_a_refilled_caller_buffer")
                     except Exception:
